@@ -43,6 +43,9 @@ func Open(stream io.ReaderAt) (*DB, error) {
 		return nil, ErrInvalidMagic
 	}
 	size := binary.LittleEndian.Uint32(magicAndSize[8:])
+	if int64(size) < minHeaderSize-12 || int64(size) > maxHeaderSize-12 {
+		return nil, fmt.Errorf("invalid header length: %d", size)
+	}
 	fileHeaderBuf := make([]byte, 8+4+size)
 	n, readErr = stream.ReadAt(fileHeaderBuf, 0)
 	if n < len(fileHeaderBuf) {
@@ -104,6 +107,10 @@ func (db *DB) GetBucket(i uint) (*Bucket, error) {
 	if i >= uint(db.Header.NumBuckets) {
 		return nil, fmt.Errorf("out of bounds bucket index: %d >= %d", i, db.Header.NumBuckets)
 	}
+	if db.Header.ValueSize > maxValueSize {
+		// the entry stride (hash + value) is a uint8
+		return nil, fmt.Errorf("value size %d exceeds max %d", db.Header.ValueSize, maxValueSize)
+	}
 
 	// Fill bucket handle.
 	bucket := &Bucket{
@@ -117,6 +124,9 @@ func (db *DB) GetBucket(i uint) (*Bucket, error) {
 	readErr := bucket.BucketHeader.readFrom(db.Stream, i)
 	if readErr != nil {
 		return nil, readErr
+	}
+	if int(bucket.HashLen)+int(bucket.OffsetWidth) > int(bucket.Stride) {
+		return nil, fmt.Errorf("invalid bucket %d: hash length %d does not fit the entry stride %d", i, bucket.HashLen, bucket.Stride)
 	}
 	bucket.Entries = io.NewSectionReader(db.Stream, int64(bucket.FileOffset), int64(bucket.NumEntries)*int64(bucket.Stride))
 	if db.prefetch {
